@@ -1,10 +1,12 @@
 package main
 
-// C01 direct oracle for the one place where the Go evaluator is known to leave the Cedar
-// specification: `toDate` / `toTime` (internal/eval/evalers.go, toDateEval / toTimeEval) compute
+// C01 direct oracle for the one place where the Go evaluator was found to leave the Cedar
+// specification: `toDate` / `toTime` (internal/eval/evalers.go, toDateEval / toTimeEval) used to compute
 // `ms - ms % MillisPerDay` and `ms % MillisPerDay` with Go's truncated `%`; the specification
 // (Cedar.Spec.Ext.Datetime.toDate / toTime, and `Spec.floorDate` in lean/CedarGo/Spec/Evaluator.lean)
 // uses FLOOR semantics and reports an error when flooring leaves the int64 range.
+// The defect (class todate-totime-negative-truncation) is repaired (known_findings: status "fixed");
+// the oracle is unchanged, so a return of the truncation is reported as a VIOLATION.
 // The expected values are computed here with math/big, independently of both the Go code and the Lean model.
 
 import (
